@@ -497,6 +497,11 @@ impl State {
         ) = self.inner
         {
             if force || rotation_state.roll_state.rotation_necessary() {
+                // what is still buffered belongs to the file that is rotated out: write it
+                // before that file gets its final name, because from then on the cleanup
+                // thread may compress or remove it at any time
+                current_write.flush().ok();
+
                 let infix = match rotation_state.naming_state {
                     NamingState::Timestamps {
                         current_timestamp: ref mut ts,
